@@ -127,7 +127,32 @@ fn hostile_conn(r: &mut Rng, nonce: &mut u64, port: u16, span_ms: u64) -> ConnPl
     }
     let my = *nonce;
     *nonce += 1;
-    match r.below(10) {
+    match r.below(11) {
+        10 => {
+            // an otherwise valid request to a typed-body or multipart endpoint
+            // whose Content-Type value is not text: "invalid header values
+            // ... status is 4xx or 5xx"
+            let mut e = if r.chance(3, 4) {
+                super::echo_gen::gen_typed(r, my, 0, 0)
+            } else {
+                super::echo_gen::gen_mp(r, my, 0, 0)
+            };
+            let good = e.ctype.take().unwrap_or_else(|| "application/json".to_string());
+            let mut ct: Vec<u8> = match r.below(4) {
+                0 => vec![b'a', 0xff, b'/', 0xfe],
+                1 => vec![0xff, 0xfe],
+                2 => good.clone().into_bytes(),
+                _ => b"application/json; charset=".to_vec(),
+            };
+            if ct.is_ascii() {
+                ct.push(*r.pick(&[0x80u8, 0xa0, 0xe9, 0xff]));
+            }
+            e.headers.push(("content-type".into(), ct));
+            c.steps.push(Step::Send { data: Blob(e.h1_bytes()), completes: Some(0) });
+            c.reqs.push(hostile("invalid_content_type_value", true, my));
+            c.steps.push(Step::AwaitResponses { count: 1, max_ms: 35_000 });
+            c.steps.push(Step::Close);
+        }
         9 => {
             // a body larger than the endpoint accepts (server default 1024),
             // with either framing, complete or cut short
